@@ -1,6 +1,7 @@
 package checks
 
 import (
+	"strings"
 	"encoding/json"
 	"fmt"
 	"math/big"
@@ -70,7 +71,27 @@ func c18Run(cs c18Case, all bool) (msg string) {
 	}
 	for k, op := range cs.Ops {
 		check := all || k == len(cs.Ops)-1
-		v := bigs(op.Value)
+		var v *big.Int
+		switch {
+		case op.Value == "@root": // the current root written as a leaf value
+			v = rt.Root()
+		case strings.HasPrefix(op.Value, "@empty"): // hash of an empty subtree of the given height
+			h := 0
+			fmt.Sscan(op.Value[6:], &h)
+			v = new(big.Int)
+			for i := 0; i < h; i++ {
+				v = ref.BN.H2(v, v)
+			}
+		case strings.HasPrefix(op.Value, "@node"): // current value of the sibling subtree one level up
+			if dense != nil && cs.Depth >= 1 {
+				lv := dense.Proof(int(op.Index))
+				v = lv[0]
+			} else {
+				v = big.NewInt(3)
+			}
+		default:
+			v = bigs(op.Value)
+		}
 		var prevRoot, old *big.Int
 		if check {
 			prevRoot = rt.Root()
@@ -115,7 +136,10 @@ func c18Run(cs c18Case, all bool) (msg string) {
 
 func c18Body(c *ev.Ctx) {
 	rm1 := new(big.Int).Sub(ref.R, big.NewInt(1)).String()
-	vals := []string{"0", "1", rm1}
+	// values include hashes that occur INSIDE the tree (empty-subtree hashes, the current
+	// root, the current sibling): a leaf that equals a node hash must not confuse the structure
+	vals := []string{"0", "1", rm1, "@empty1", "@root"}
+	valsBig := []string{"0", "1", rm1, "@empty1", "@empty2", "@root", "@node"}
 	type plan struct {
 		depth, maxLen int
 		idx           []uint64
@@ -130,9 +154,9 @@ func c18Body(c *ev.Ctx) {
 		return out
 	}
 	if c.Quick() {
-		plans = append(plans, plan{1, 5, all(1), vals}, plan{2, 4, all(2), vals}, plan{3, 3, all(3), vals})
+		plans = append(plans, plan{1, 4, all(1), valsBig}, plan{2, 3, all(2), valsBig}, plan{2, 4, all(2), []string{"0", "1", "@empty1", "@root"}}, plan{3, 3, all(3), vals})
 	} else {
-		plans = append(plans, plan{1, 7, all(1), vals}, plan{2, 5, all(2), vals}, plan{3, 4, all(3), vals}, plan{4, 3, all(4), vals})
+		plans = append(plans, plan{1, 6, all(1), valsBig}, plan{2, 4, all(2), valsBig}, plan{2, 5, all(2), vals}, plan{3, 4, all(3), vals}, plan{4, 3, all(4), vals})
 	}
 	for d := 4; d <= 32; d++ {
 		h := uint64(1) << uint(d-1)
@@ -141,7 +165,7 @@ func c18Body(c *ev.Ctx) {
 		if !c.Quick() {
 			L = 3
 		}
-		plans = append(plans, plan{d, L, idx, []string{"0", "7"}})
+		plans = append(plans, plan{d, L, idx, []string{"0", "7", "@empty1", "@empty" + fmt.Sprint(d-1), "@root"}})
 	}
 	var mu sync.Mutex
 	states := map[string]bool{}
@@ -174,7 +198,7 @@ func c18Body(c *ev.Ctx) {
 				key := fmt.Sprintf("d%d:", p.depth)
 				for _, i := range p.idx {
 					if v, ok := leaves[i]; ok {
-						key += fmt.Sprintf("%d=%s,", i, v[:1])
+						key += fmt.Sprintf("%d=%.3s,", i, v)
 					}
 				}
 				mu.Lock()
